@@ -289,6 +289,10 @@ def run(ctx):
     EC, EP_ = ("each", COLOR), ("each", PIECE)
 
     def rights_ok(x):
+        if x[0] == "array":
+            # written out colour by colour: element k is the rights of the colour with index k
+            cols = [v_["name"] for v_ in f.adts[COLOR]["variants"]]
+            return len(x[1]) == len(cols) and all(el == ("get", "castle_rights", board, ("enum", COLOR, c_)) for el, c_ in zip(x[1], cols))
         return x[0] == "with" and x[2][0] == "i" and x[3] == ("get", "castle_rights", board, EC) and x[2][1] == ("cast", "usize", ("discr", EC))
     ctx.check(has_value("castle_rights", rights_ok), "from_board:rights-per-colour", "castle rights are not copied per colour from the board", loc(fb))
 
